@@ -67,6 +67,11 @@ def reading_problem(live, mm: MetaModel, result: Any, tau: Dict, j: Any, path: s
                 return f"{path}: {cname} built from a non-object"
             if not mm.valid({"kind": "reference", "name": cname}, j, False):
                 return f"{path}: parsed as {cname}, for which the input is not valid"
+            from contracts.hooks_generic import classes_admitted
+
+            adm = classes_admitted(mm, tau)
+            if adm and cname not in adm:
+                return f"{path}: parsed as {cname}, which is not an alternative of {_tname(tau)}"
             return None
         return None
     if isinstance(result, dict):
